@@ -190,7 +190,7 @@ def partial_trace(
     if isinstance(sys, int):
         sys = np.array([sys])
 
-    set_diff = list(set(list(range(num_sys))) - set(sys))
+    set_diff = sorted(set(range(num_sys)) - set(sys.tolist()))
     perm = set_diff
     perm.extend(sys)
 
